@@ -236,6 +236,19 @@ fn hazards() -> Vec<Case> {
             add(&format!("root-count-{count:x}-c{comp}"), &b0, &[(Field::Root(0), count)]);
             add(&format!("leaf-count-{count:x}-c{comp}"), &b1.with(&[(Field::Leaf(0, 0), count)]), &[]);
         }
+        // two hostile values that only hurt together: a huge count with a huge declared section length
+        for count in [1u64 << 40, 1 << 62, u64::MAX] {
+            for len in [1u64 << 40, 1 << 62, u64::MAX] {
+                add(&format!("root-count-{count:x}+root-length-{len:x}-c{comp}"), &b0, &[(Field::Root(0), count), (Field::HeaderU64(1), len)]);
+            }
+            // leaf: count in the leaf, length in the pointer (a u32)
+            add(&format!("leaf-count-{count:x}+pointer-length-u32max-c{comp}"), &b1.with(&[(Field::Leaf(0, 0), count)]), &[(Field::Root(5), (1 << 32) - 1)]);
+            add(&format!("root-count-{count:x}+leaf-length-max-c{comp}"), &b1, &[(Field::Root(0), count), (Field::HeaderU64(5), u64::MAX)]);
+            add(&format!("root-count-{count:x}+meta-length-max-c{comp}"), &b0, &[(Field::Root(0), count), (Field::HeaderU64(3), u64::MAX)]);
+        }
+        add(&format!("run-u32max+id-near-max-c{comp}"), &b0, &[(Field::Root(1), u64::MAX - 2), (Field::Root(4), (1 << 32) - 1)]);
+        add(&format!("offset-max+data-offset-max-c{comp}"), &b0, &[(Field::Root(10), u64::MAX), (Field::HeaderU64(6), u64::MAX)]);
+        add(&format!("pointer-offset-max+leaf-offset-max-c{comp}"), &b1, &[(Field::Root(7), u64::MAX), (Field::HeaderU64(4), u64::MAX)]);
         // wrapping id sum
         add(&format!("id-sum-wraps-c{comp}"), &b0, &[(Field::Root(1), 1 << 63), (Field::Root(2), 1 << 63)]);
         add(&format!("id-sum-wraps2-c{comp}"), &b0, &[(Field::Root(1), u64::MAX), (Field::Root(2), 1)]);
@@ -539,6 +552,13 @@ fn run_case(i: usize, c: &Case) {
                 guard(i, &format!("decompress_all/{tag}"), || decompress_all(cc, b).map(|d| d.len()).ok());
             }
             guard(i, "Directory::from_bytes/unknown", || Directory::from_bytes(b, Compression::Unknown).is_ok());
+            // the caller-supplied length is just as untrusted as the bytes
+            if let Some(cc) = super::util::comp_of_code(comp) {
+                for len in [u64::MAX, 1 << 62, 1 << 40, 0] {
+                    guard(i, "Directory::from_reader(len=huge)", || Directory::from_reader(&mut std::io::Cursor::new(b), len, cc).map(|d| d.len()).ok());
+                    guard(i, "Directory::from_async_reader(len=huge)", || block_on(Directory::from_async_reader(&mut futures::io::Cursor::new(b), len, cc)).map(|d| d.len()).ok());
+                }
+            }
         }
         Target::Archive => {
             guard(i, "Header::from_bytes", || Header::from_bytes(b).is_ok());
